@@ -141,21 +141,20 @@ fn one_op(st: &mut St, r: &mut Rng, log: &mut Vec<String>, big_tx: &IpcSender<Ms
     } else if op < 46 && !cfg!(feature = "inproc") && st.victims < 3 {
         // a sending sim-process that dies in the middle of a multi-packet message carrying a
         // sender and a region; we receive until the channel reports the end
-        if let Ok((vtx, vrx)) = ipc::channel::<Msg>() {
+        type Big = (Vec<u8>, Vec<IpcSharedMemory>, Option<IpcSender<u32>>);
+        if let Ok((vtx, vrx)) = ipc::channel::<Big>() {
             st.victims += 1;
             let pid = 20 + st.victims;
-            let k = r.below(10);
-            let id = st.next_id;
-            st.next_id += 1;
+            let k = r.below(14);
+            let nreg = r.range(1, 3) as usize;
             sim::suspend_fd_faults(true);
-            super::util::spawn_process(&format!("victim{}", pid), pid, vtx, move |vtx: IpcSender<Msg>| {
-                let _ = vtx.send(Msg::Plain(id));
-                if let Ok((t2, r2)) = ipc::channel::<Msg>() {
-                    let _ = vtx.send(Msg::Tx(id, 99, t2));
-                    drop(r2);
-                }
+            super::util::spawn_process(&format!("victim{}", pid), pid, vtx, move |vtx: IpcSender<Big>| {
+                let _ = vtx.send((vec![1, 2, 3], vec![], None));
+                let side = ipc::channel::<u32>().ok();
+                let regs: Vec<IpcSharedMemory> = (0..nreg).map(|i| IpcSharedMemory::from_byte(5, 10_000 + i)).collect();
+                // a multi-packet message that carries regions and an endpoint
                 sim::arm_crash(pid, k);
-                let _ = vtx.send(Msg::Region(id, IpcSharedMemory::from_byte(5, 400_000)));
+                let _ = vtx.send((vec![7u8; 500_000], regs, side.map(|s| s.0)));
                 sim::disarm_crash(pid);
                 sim::crash_now();
             });
@@ -165,7 +164,7 @@ fn one_op(st: &mut St, r: &mut Rng, log: &mut Vec<String>, big_tx: &IpcSender<Ms
                 n += 1;
                 drop(m);
             }
-            log.push(format!("victim process crashed at call {} of a big send; {} messages received", k, n));
+            log.push(format!("victim process crashed at call {} of a multi-packet send with {} regions; {} messages received", k, nreg, n));
         }
     } else if op < 48 {
         // a multi-packet message with attachments to the channel that a background thread drains
@@ -392,6 +391,16 @@ impl Scenario for C11S {
         sim["faults"] = json!(faults);
         let nops = if r.chance(1, 6) { r.range(150, 400) } else { r.range(10, 120) };
         json!({"sim": sim, "pseed": r.next() >> 4, "nops": nops, "rounds": if tier == Tier::Thorough { r.range(1, 4) } else { r.range(1, 2) }})
+    }
+    fn died(&self, how: &str, text: &str) -> Option<Violation> {
+        // every blocking call of the program is one that must return (e.g. receiving until the
+        // channel of a dead process reports the end): the only thread blocking for ever means a
+        // descriptor that should be gone is still open somewhere
+        if how == "sim-abort" && text.contains("DEADLOCK") {
+            let line = text.lines().find(|l| l.contains("'main'")).unwrap_or("").trim().to_string();
+            return Some(Violation { sig: "never-disconnects:recv".into(), detail: format!("the program blocked for ever waiting for a channel to report disconnection although every sender had been dropped or had died: {}", line) });
+        }
+        None
     }
     fn post(&self, body: &Value) -> Option<Violation> {
         let l = body["tmp_leftovers"].as_array().map(|a| a.len()).unwrap_or(0);
